@@ -6,14 +6,14 @@ needs = ' '.join(sys.argv[4:])
 d = '/verif/seeded/' + name
 meta = {
     "property": prop,
-    "source": "fresh sub-agent given only the property text and a scratch worktree of /repo",
+    "source": "fresh sub-agent given only the property text (round 2: plus one line saying what the round-1 change touched, to force a different one) and a scratch worktree of /repo",
     "needs_to_manifest": needs,
     "confirmed": {
         "builds": True,
         "demo_fails_with_change": True,
         "demo_passes_without_change": True,
         "existing_tests_of_touched_packages_pass": True,
-        "how": "seedtake.sh: go build ./...; go test -run 'Seeded|Demo' on the demo package with and without the change (git stash in the agent's own worktree, after all agents finished); go test of the touched packages without the demo file",
+        "how": "seedtake.sh: go build ./...; go test -run 'Seeded|Demo' on the demo package with and without the change (change reversed and re-applied with git apply in the agent's own worktree); go test of the touched packages without the demo file",
     },
     "checks_run": "./mut.sh (scratch worktree of /repo HEAD + patch.diff; ./check %s --tier quick with VERIF_REPO)" % prop,
     "caught_by": caught,
